@@ -304,7 +304,14 @@ impl Prop for Mutated {
                     cs.insert(pos, c);
                 }
                 5 => cs.insert(pos, '\''),
-                _ => {}
+                _ => {
+                    // byte-length preserving: k ASCII characters replaced by one k-byte character
+                    let ch = *u.choose(&['é', '日', '😀'])?;
+                    let k = ch.len_utf8();
+                    if pos + k <= cs.len() && cs[pos..pos + k].iter().all(|c| c.is_ascii()) {
+                        cs.splice(pos..pos + k, std::iter::once(ch));
+                    }
+                }
             }
             *s = cs.into_iter().collect();
         }
@@ -374,6 +381,63 @@ pub fn run(env: &mut Env) {
         let s = i3[k as usize].clone();
         [3u8, 4, 5, 6, 7, 8, 12, 13, 14].into_iter().map(move |api| Case { api, pattern: String::new(), input: s.clone() })
     });
+    // byte-length preserving multi-byte substitutions at every position of valid texts: the byte
+    // length checks of the fixed-position parsers still pass, the slices then end inside a character
+    let bases: Vec<(Vec<u8>, &str, &str)> = vec![
+        (vec![5, 6, 14], "", "2022-05-02T15:30:20Z"),
+        (vec![5, 6, 14], "", "2022-05-02T15:30:20+05:30"),
+        (vec![5, 6, 14], "", "2022-05-02T15:30:20.123456789-05:30"),
+        (vec![5, 6, 14], "", "0001-01-01T00:00:00.5+00:00"),
+        (vec![3, 12], "", "2022-05-02"),
+        (vec![3, 12], "", "-0005-02-29"),
+        (vec![4, 13], "", "12:32:01"),
+        (vec![7, 8], "", "*/5 0-23 1,15 jan-dec mon-fri"),
+        (vec![2], "yyyy-MM-dd HH:mm:ss.nnnnn xxxxx", "2022-05-02 12:32:01.000000001 +05:30:15"),
+        (vec![2], "y-M-d h:m:s a XXX", "2022-5-2 1:2:3 PM -08:00"),
+        (vec![0], "yyyyMMdd GGGG eeee", "20220502 Anno Domini Monday"),
+        (vec![0], "yyyy-DDD", "2024-366"),
+        (vec![1], "HHmmssnnn xx", "123201999 +0530"),
+    ];
+    let mut subs: Vec<Case> = Vec::new();
+    for (apis, pattern, text) in &bases {
+        let cs: Vec<char> = text.chars().collect();
+        for ch in ['é', '日', '😀'] {
+            let k = ch.len_utf8();
+            for pos in 0..cs.len() {
+                // same byte length
+                if pos + k <= cs.len() {
+                    let mut v = cs.clone();
+                    v.splice(pos..pos + k, std::iter::once(ch));
+                    for api in apis {
+                        subs.push(Case { api: *api, pattern: pattern.to_string(), input: v.iter().collect() });
+                    }
+                }
+                // same character count
+                let mut v = cs.clone();
+                v[pos] = ch;
+                for api in apis {
+                    subs.push(Case { api: *api, pattern: pattern.to_string(), input: v.iter().collect() });
+                }
+            }
+        }
+        // the same substitutions inside the pattern
+        if !pattern.is_empty() {
+            let ps: Vec<char> = pattern.chars().collect();
+            for ch in ['é', '日'] {
+                for pos in 0..ps.len() {
+                    let mut v = ps.clone();
+                    v[pos] = ch;
+                    for api in apis {
+                        subs.push(Case { api: *api, pattern: v.iter().collect(), input: text.to_string() });
+                        subs.push(Case { api: *api + 9, pattern: v.iter().collect(), input: String::new() });
+                    }
+                }
+            }
+        }
+    }
+    let nsubs = subs.len();
+    env.run_list::<Mutated>(subs);
+    env.exhaustive_parts.push(format!("C14: {} multi-byte substitutions (byte-length preserving and character-count preserving, at every position) of 13 valid texts/patterns", nsubs));
     env.exhaustive_parts.push(format!(
         "C14: all strings of length <= {} over a 12-symbol hostile alphabet x {} one-field patterns (19 symbols x widths 1..=6 x 4 wrappings) through parse; the same strings as patterns (format and parse) and through from_str / parse_rfc3339 / CronSchedule / serde",
         maxlen,
